@@ -150,6 +150,17 @@ def decChars (m : Int) (e : Nat) : List Char :=
 
 /-! ## Built-in scalars on JVal kinds (scalars.go:17-515) -/
 
+/-- The spellings `strconv.ParseFloat` reads as a non-finite number: `[+-]?(inf|infinity)` and `nan`, in any
+letter case. `coerceInt` rejects them (NaN guard, range check), `coerceFloat` yields NaN/±Inf, which `isNullish`
+treats as no value: both are `null` here. -/
+def isNonFiniteSpelling (x : String) : Bool :=
+  let cs := x.toList.map Char.toLower
+  let inf := cs == "inf".toList || cs == "infinity".toList
+  match cs with
+  | '+' :: r => r == "inf".toList || r == "infinity".toList
+  | '-' :: r => r == "inf".toList || r == "infinity".toList
+  | _ => inf || cs == "nan".toList
+
 /-- `coerceInt(float64)`: range check on the float, then truncation toward zero -/
 def intOfDec (m : Int) (e : Nat) : JVal :=
   let p : Int := 10 ^ e
@@ -159,18 +170,22 @@ def coerceInt : JVal → JVal
   | .bool b => .int (if b then 1 else 0)
   | .int i => if inInt32 i then .int i else .null
   | .dec m e => intOfDec m e
-  | .str x => match parseDec x.toList with
-      | some p => intOfDec p.1 p.2
-      | none => .null
+  | .str x =>
+    if isNonFiniteSpelling x then .null else
+    match parseDec x.toList with
+    | some p => intOfDec p.1 p.2
+    | none => .null
   | _ => .null
 
 def coerceFloat : JVal → JVal
   | .bool b => .int (if b then 1 else 0)
   | .int i => .int i
   | .dec m e => .dec m e
-  | .str x => match parseDec x.toList with
-      | some p => normDec p.1 p.2
-      | none => .null
+  | .str x =>
+    if isNonFiniteSpelling x then .null else
+    match parseDec x.toList with
+    | some p => normDec p.1 p.2
+    | none => .null
   | _ => .null
 
 def coerceBool : JVal → JVal
